@@ -1,2 +1,285 @@
-import Simfile.Model.Views
-import Simfile.Model.Convert
+/-
+C15: timing data comes from exactly one object — the chart exactly when the simfile is an SSC simfile whose
+version is at least the split-timing threshold and the SSC chart has a non-empty value under one of the eleven
+chart timing keys; offset default; DISPLAYBPM rule.
+-/
+import Simfile.Lemmas.Source
+namespace Simfile.C15
+open Simfile Simfile.O Simfile.V Simfile.S
+
+/-! ### 1. the generated constants -/
+
+theorem eleven : T.chartTimingProperties =
+    ["BPMS".toList, "STOPS".toList, "DELAYS".toList, "TIMESIGNATURES".toList, "TICKCOUNTS".toList,
+     "COMBOS".toList, "WARPS".toList, "SPEEDS".toList, "SCROLLS".toList, "FAKES".toList, "LABELS".toList] := by
+  decide
+
+/-- the threshold is the double nearest to 0.7 (just below 7/10) -/
+theorem threshold :
+    (T.sscVersionSplitTimingNum : Rat) / T.sscVersionSplitTimingDen ≤ 7/10 ∧
+    699/1000 < (T.sscVersionSplitTimingNum : Rat) / T.sscVersionSplitTimingDen := by
+  norm_num [T.sscVersionSplitTimingNum, T.sscVersionSplitTimingDen]
+
+/-! ### 2. which object is the source -/
+
+/-- the compared version string: the VERSION property, "0" when missing, valueless or empty -/
+theorem version_string (sim : Src) :
+    versionString sim = match (sim.d.get? "VERSION".toList).join with
+      | some (x :: xs) => x :: xs
+      | _ => ['0'] := by
+  have h : attrGet .sscSimfile sim.d ['v','e','r','s','i','o','n'] = (sim.d.get? "VERSION".toList).join :=
+    attrGet_of_find .sscSimfile sim.d _ _ none (by decide)
+  unfold versionString; rw [h]
+  generalize (sim.d.get? "VERSION".toList).join = o
+  cases o with
+  | none => rfl
+  | some v => cases v <;> rfl
+
+/-- the version test: the string parses as a decimal at least the threshold -/
+theorem version_rule (v : Str) :
+    versionOK v = .ok true ↔
+      ∃ q, parseDecimal v = some q ∧ (T.sscVersionSplitTimingNum : Rat) / T.sscVersionSplitTimingDen ≤ q := by
+  unfold versionOK
+  cases parseDecimal v with
+  | none => simp
+  | some q => simp
+
+theorem source_rule (sim : Src) (chart : Option Src) :
+    useChart sim chart = .ok true ↔
+      sim.kind = .sscSimfile ∧ ∃ c, chart = some c ∧ c.kind = .sscChart ∧
+        versionOK (versionString sim) = .ok true ∧
+        ∃ key ∈ T.chartTimingProperties, truthy (attrGet .sscChart c.d (chartAttrOfKey key)) = true :=
+  useChart_iff sim chart
+
+/-- none of the eleven keys has an alias: the attribute read is the plain key read -/
+theorem source_rule_keys (d : Dict) (key : Str) (h : key ∈ T.chartTimingProperties) :
+    attrGet .sscChart d (chartAttrOfKey key) = (d.get? key).join := attrGet_chartTiming d key h
+
+/-- the trigger, literally: the chart has a non-empty value under one of the eleven keys -/
+theorem source_rule_plain (sim : Src) (chart : Option Src) :
+    useChart sim chart = .ok true ↔
+      sim.kind = .sscSimfile ∧ ∃ c, chart = some c ∧ c.kind = .sscChart ∧
+        versionOK (versionString sim) = .ok true ∧
+        ∃ key ∈ T.chartTimingProperties, ∃ x xs, c.d.get? key = some (some (x :: xs)) := by
+  rw [source_rule]
+  have key_iff : ∀ c : Src, (∃ key ∈ T.chartTimingProperties, truthy (attrGet .sscChart c.d (chartAttrOfKey key)) = true) ↔
+      ∃ key ∈ T.chartTimingProperties, ∃ x xs, c.d.get? key = some (some (x :: xs)) := by
+    intro c
+    constructor
+    · rintro ⟨key, hk, ht⟩
+      refine ⟨key, hk, ?_⟩
+      rw [source_rule_keys c.d key hk] at ht
+      cases hg : c.d.get? key with
+      | none => rw [hg] at ht; cases ht
+      | some o =>
+        cases o with
+        | none => rw [hg] at ht; cases ht
+        | some v =>
+          cases v with
+          | nil => rw [hg] at ht; cases ht
+          | cons x xs => exact ⟨x, xs, rfl⟩
+    · rintro ⟨key, hk, x, xs, hg⟩
+      refine ⟨key, hk, ?_⟩
+      rw [source_rule_keys c.d key hk, hg]; rfl
+  constructor
+  · rintro ⟨h1, c, h2, h3, h4, h5⟩
+    exact ⟨h1, c, h2, h3, h4, (key_iff c).mp h5⟩
+  · rintro ⟨h1, c, h2, h3, h4, h5⟩
+    exact ⟨h1, c, h2, h3, h4, (key_iff c).mpr h5⟩
+
+/-- the only failure: an SSC simfile with an SSC chart and a version string that is not a decimal -/
+theorem source_rule_error (sim : Src) (chart : Option Src) (e : SErr) :
+    useChart sim chart = .error e ↔
+      sim.kind = .sscSimfile ∧ ∃ c, chart = some c ∧ c.kind = .sscChart ∧
+        versionOK (versionString sim) = .error e := useChart_error_iff sim chart e
+
+example : useChart ⟨.sscSimfile, [("VERSION".toList, some "0.83".toList)]⟩
+    (some ⟨.sscChart, [("STOPS".toList, some "1=2".toList)]⟩) = .ok true := by decide +kernel
+example : useChart ⟨.sscSimfile, [("VERSION".toList, some "0.83".toList)]⟩
+    (some ⟨.sscChart, [("STOPS".toList, some "".toList), ("OFFSET".toList, some "1".toList)]⟩) = .ok false := by
+  decide +kernel
+example : useChart ⟨.sscSimfile, [("VERSION".toList, some "0.69".toList)]⟩
+    (some ⟨.sscChart, [("STOPS".toList, some "1=2".toList)]⟩) = .ok false := by decide +kernel
+
+/-! ### 3. one source for every field -/
+
+/-- the timing strings of ONE object -/
+def fieldsOf (s : Src) : TDStrings :=
+  let a := attrGet s.kind s.d
+  { bpms := beatValuesFromStr (a ['b','p','m','s']),
+    stops := beatValuesFromStr (a ['s','t','o','p','s']),
+    delays := beatValuesFromStr (a ['d','e','l','a','y','s']),
+    warps := beatValuesFromStr ((s.d.get? ['W','A','R','P','S']).join),
+    offset := match a ['o','f','f','s','e','t'] with
+      | some (x :: xs) => parseDecimal (x :: xs)
+      | _ => some 0 }
+
+/-- the chosen source is the simfile or the chart, and every field is computed from it alone -/
+theorem single_source (sim : Src) (chart : Option Src) (s : Src) (h : timingSource sim chart = .ok s) :
+    (s = sim ∨ chart = some s) ∧ timingData sim chart = .ok (fieldsOf s) := by
+  refine ⟨?_, ?_⟩
+  · rcases timingSource_cases sim chart s h with ⟨_, e⟩ | ⟨_, e⟩
+    · exact Or.inl e
+    · exact Or.inr e
+  · unfold timingData; rw [h]; rfl
+
+/-- which one: the chart exactly when `source_rule` holds -/
+theorem source_is (sim : Src) (chart : Option Src) :
+    (useChart sim chart = .ok true → ∃ c, chart = some c ∧ timingSource sim chart = .ok c) ∧
+    (useChart sim chart = .ok false → timingSource sim chart = .ok sim) ∧
+    (∀ e, useChart sim chart = .error e → timingSource sim chart = .error e ∧ timingData sim chart = .error e) := by
+  refine ⟨timingSource_of_true sim chart, timingSource_of_false sim chart, fun e he => ?_⟩
+  have := timingSource_of_error sim chart e he
+  refine ⟨this, ?_⟩
+  unfold timingData; rw [this]; rfl
+
+example : timingSource ⟨.sscSimfile, [("VERSION".toList, some "0.83".toList), ("BPMS".toList, some "0=120".toList)]⟩
+    (some ⟨.sscChart, [("STOPS".toList, some "1=2".toList)]⟩) = .ok ⟨.sscChart, [("STOPS".toList, some "1=2".toList)]⟩ := by
+  decide +kernel
+
+/-! ### 4. offset default -/
+
+/-- no OFFSET key, a valueless one or an empty one: the offset is 0 -/
+theorem offset_default (s : Src)
+    (h : s.d.get? "OFFSET".toList = none ∨ s.d.get? "OFFSET".toList = some none ∨
+      s.d.get? "OFFSET".toList = some (some [])) :
+    (fieldsOf s).offset = some 0 := by
+  show (match attrGet s.kind s.d ['o','f','f','s','e','t'] with
+      | some (x :: xs) => parseDecimal (x :: xs)
+      | _ => some 0) = some 0
+  rw [attrGet_offset]
+  split_ifs
+  · rfl
+  · have e : "OFFSET".toList = ['O','F','F','S','E','T'] := by decide
+    rw [e] at h
+    rcases h with h | h | h <;> rw [h] <;> rfl
+
+/-- otherwise it is the parsed OFFSET value (SM charts have no offset attribute) -/
+theorem offset_value (s : Src) (hk : s.kind ≠ .smChart) (x : Char) (xs : Str)
+    (h : s.d.get? "OFFSET".toList = some (some (x :: xs))) :
+    (fieldsOf s).offset = parseDecimal (x :: xs) := by
+  show (match attrGet s.kind s.d ['o','f','f','s','e','t'] with
+      | some (x :: xs) => parseDecimal (x :: xs)
+      | _ => some 0) = _
+  rw [attrGet_offset, if_neg hk]
+  have e : "OFFSET".toList = ['O','F','F','S','E','T'] := by decide
+  rw [e] at h
+  rw [h]; rfl
+
+theorem offset_default_timing (sim : Src) (chart : Option Src) (s : Src) (h : timingSource sim chart = .ok s)
+    (ho : s.d.get? "OFFSET".toList = none ∨ s.d.get? "OFFSET".toList = some none ∨
+      s.d.get? "OFFSET".toList = some (some [])) :
+    ∃ td, timingData sim chart = .ok td ∧ td.offset = some 0 :=
+  ⟨fieldsOf s, (single_source sim chart s h).2, offset_default s ho⟩
+
+example : (fieldsOf ⟨.smSimfile, [("OFFSET".toList, some "".toList)]⟩).offset = some 0 :=
+  offset_default _ (Or.inr (Or.inr (by decide)))
+
+/-! ### 5. DISPLAYBPM -/
+
+theorem displaybpm_random (sim : Src) (chart : Option Src) (s : Src) (h : timingSource sim chart = .ok s)
+    (hv : s.d.get? kDISPLAYBPM = some (some ['*'])) : displayBpm sim chart false = .ok .random := by
+  rw [displayBpm_eq sim chart false s h, specified_value s _ hv]; rfl
+
+/-- a value without ':' that parses -/
+theorem displaybpm_static (sim : Src) (chart : Option Src) (s : Src) (h : timingSource sim chart = .ok s)
+    (v : Str) (hv : s.d.get? kDISPLAYBPM = some (some v)) (hc : ':' ∉ v) (x : Rat) (hp : parseDecimal v = some x) :
+    displayBpm sim chart false = .ok (.static x) := by
+  have hs : v ≠ ['*'] := by rintro rfl; rw [parseDecimal_star] at hp; cases hp
+  rw [displayBpm_eq sim chart false s h, specified_value s _ hv, if_neg hs, if_neg hc, hp]
+
+/-- a value `a:b` (split at the FIRST ':') whose two parts parse -/
+theorem displaybpm_range (sim : Src) (chart : Option Src) (s : Src) (h : timingSource sim chart = .ok s)
+    (a b : Str) (hv : s.d.get? kDISPLAYBPM = some (some (a ++ ':' :: b))) (ha : ':' ∉ a) (x y : Rat)
+    (hx : parseDecimal a = some x) (hy : parseDecimal b = some y) :
+    displayBpm sim chart false = .ok (.range x y) := by
+  have hc : ':' ∈ a ++ ':' :: b := by simp
+  have hs : a ++ ':' :: b ≠ ['*'] := by
+    intro e; rw [e] at hc; simp at hc
+  rw [displayBpm_eq sim chart false s h, specified_value s _ hv, if_neg hs, if_pos hc, partition_first ':' a b ha]
+  simp only [hx, hy]
+
+/-- a DISPLAYBPM key without value is a TypeError -/
+theorem displaybpm_valueless (sim : Src) (chart : Option Src) (s : Src) (h : timingSource sim chart = .ok s)
+    (hv : s.d.get? kDISPLAYBPM = some none) : displayBpm sim chart false = .error .typeError := by
+  rw [displayBpm_eq sim chart false s h, specified_none_value s hv]
+
+/-- the cases in which DISPLAYBPM does not decide: absent, ignored, or ill-formed -/
+def Undecided (s : Src) (ignore : Bool) : Prop :=
+  s.d.contains kDISPLAYBPM = false ∨ ignore = true ∨
+  ∃ v, s.d.get? kDISPLAYBPM = some (some v) ∧ v ≠ ['*'] ∧
+    ((':' ∈ v ∧ (parseDecimal (partition ':' v).1 = none ∨ parseDecimal (partition ':' v).2.2 = none)) ∨
+     (':' ∉ v ∧ parseDecimal v = none))
+
+/-- then the result is computed from the source's BPMS alone -/
+theorem displaybpm_fallback (sim : Src) (chart : Option Src) (s : Src) (ignore : Bool)
+    (h : timingSource sim chart = .ok s) (hu : Undecided s ignore) :
+    displayBpm sim chart ignore = bpmsFallback s := by
+  rw [displayBpm_eq sim chart ignore s h]
+  rcases hu with hu | hu | ⟨v, hv, hs, hu⟩
+  · rw [specified_off s ignore (Or.inl hu)]
+  · rw [specified_off s ignore (Or.inr hu)]
+  · cases ignore with
+    | true => rw [specified_off s true (Or.inr rfl)]
+    | false =>
+      rw [specified_value s v hv, if_neg hs]
+      rcases hu with ⟨hc, hp⟩ | ⟨hc, hp⟩
+      · rw [if_pos hc]
+        rcases hp with hp | hp
+        · rw [hp]
+        · rw [hp]; cases parseDecimal (partition ':' v).1 <;> rfl
+      · rw [if_neg hc, hp]
+
+/-- one BPM value: static -/
+theorem fallback_static (s : Src) (b : Option Str) (r : BVRow) (x : Rat) (hb : s.d.get? kBPMS = some b)
+    (hr : beatValuesFromStr b = some [r]) (hx : parseDecimal r.value = some x) :
+    bpmsFallback s = .ok (.static x) := by
+  unfold bpmsFallback
+  rw [hb]; simp only [hr]
+  simp [hx]; rfl
+
+/-- several BPM values: the range from the smallest to the largest of them -/
+theorem fallback_range (s : Src) (b : Option Str) (rows : List BVRow) (v v' : Rat) (vs : List Rat)
+    (hb : s.d.get? kBPMS = some b) (hr : beatValuesFromStr b = some rows)
+    (hx : rows.mapM (fun r => parseDecimal r.value) = some (v :: v' :: vs)) :
+    ∃ lo hi, bpmsFallback s = .ok (.range lo hi) ∧ lo ∈ v :: v' :: vs ∧ hi ∈ v :: v' :: vs ∧
+      ∀ x ∈ v :: v' :: vs, lo ≤ x ∧ x ≤ hi := by
+  refine ⟨(v' :: vs).foldl min v, (v' :: vs).foldl max v, ?_, foldl_min_mem v _, foldl_max_mem v _,
+    fun x hx => ⟨foldl_min_le v _ x hx, le_foldl_max v _ x hx⟩⟩
+  unfold bpmsFallback
+  rw [hb]; simp only [hr, hx]; rfl
+
+/-- the failures of the fallback -/
+theorem fallback_errors (s : Src) :
+    (s.d.get? kBPMS = none → bpmsFallback s = .error .keyError) ∧
+    (∀ b, s.d.get? kBPMS = some b → beatValuesFromStr b = none → bpmsFallback s = .error .valueError) ∧
+    (∀ b, s.d.get? kBPMS = some b → beatValuesFromStr b = some [] → bpmsFallback s = .error .valueError) := by
+  refine ⟨fun h => ?_, fun b hb hr => ?_, fun b hb hr => ?_⟩
+  · unfold bpmsFallback; rw [h]; rfl
+  · unfold bpmsFallback; rw [hb]; simp only [hr]; rfl
+  · unfold bpmsFallback; rw [hb]; simp only [hr]; rfl
+
+example : displayBpm ⟨.smSimfile, [("DISPLAYBPM".toList, some "*".toList)]⟩ none false = .ok .random := by
+  decide +kernel
+example : displayBpm ⟨.smSimfile, [("DISPLAYBPM".toList, some "120:180".toList)]⟩ none false = .ok (.range 120 180) := by
+  decide +kernel
+example : displayBpm ⟨.smSimfile, [("DISPLAYBPM".toList, some "150".toList)]⟩ none false = .ok (.static 150) := by
+  decide +kernel
+example : displayBpm ⟨.smSimfile, [("DISPLAYBPM".toList, some "x".toList), ("BPMS".toList, some "0=120,4=90".toList)]⟩
+    none false = .ok (.range 90 120) := by decide +kernel
+example : Undecided ⟨.smSimfile, [("DISPLAYBPM".toList, some "x".toList)]⟩ false :=
+  Or.inr (Or.inr ⟨"x".toList, by decide, by decide, Or.inr ⟨by decide, by decide +kernel⟩⟩)
+
+/-- the hypotheses of the family are satisfiable together -/
+example : ∃ s, timingSource ⟨.smSimfile, [("DISPLAYBPM".toList, some "120:180".toList)]⟩ none = .ok s ∧
+    s.d.get? kDISPLAYBPM = some (some ("120".toList ++ ':' :: "180".toList)) ∧ ':' ∉ "120".toList ∧
+    parseDecimal "120".toList = some 120 ∧ parseDecimal "180".toList = some 180 :=
+  ⟨_, rfl, by decide, by decide, by decide +kernel, by decide +kernel⟩
+example : ∃ s rows, timingSource ⟨.smSimfile, [("BPMS".toList, some "0=120,4=90,8=100".toList)]⟩ none = .ok s ∧
+    Undecided s false ∧ s.d.get? kBPMS = some (some "0=120,4=90,8=100".toList) ∧
+    beatValuesFromStr (some "0=120,4=90,8=100".toList) = some rows ∧
+    rows.mapM (fun r => parseDecimal r.value) = some [120, 90, 100] :=
+  ⟨_, [⟨0, "120".toList⟩, ⟨4, "90".toList⟩, ⟨8, "100".toList⟩], rfl, Or.inl (by decide), by decide,
+    by decide +kernel, by decide +kernel⟩
+
+end Simfile.C15
